@@ -26,7 +26,12 @@ def nodes : Handler := fun j => do
   let ord := order.filterMap fun k => t.internal[k]?
   pure (jObj [("nodes", jArr rows), ("flops", jNat st.flops), ("write", jNat st.write),
               ("size", jNat st.size), ("mult", jNat (n.mult sliced)),
-              ("peak", jNat (n.peak rm t ord))])
+              ("peak", jNat (n.peak rm t ord)),
+              -- the independent definition (`C03.peak_eq_spec`): inputs live at the start, each step needs all
+              -- live tensors plus its output; and what is live at the end (must be the root alone)
+              ("peak_spec", jNat (max (Net.sumSz (n.sizeIn rm t) (t.leaves.map BT.leaf))
+                                      (Net.stepsPeak (n.sizeIn rm t) (t.leaves.map BT.leaf) ord))),
+              ("live_at_end", jNat (Net.liveAfter (t.leaves.map BT.leaf) ord).length)])
 
 def handlers : List (String × Handler) := [("c03.nodes", nodes)]
 
